@@ -38,7 +38,7 @@ var c05Arms = map[string]c05Arm{
 }
 
 func c05Fmt(r *fw.Run, p *fw.Program) {
-	ru := r.Rule("C05.fmt", "bitsFormatFnFromOptions: the labels are exactly the documented bits_format values, default is an error; each renderer copies the whole reader (a byte-aligned constant-limited prefix for truncate/snippet) with one CopyBits into a writer created inside the call (no state shared between values), through the codec its label names, checks the copy error, closes base64 encoders before reading the buffer and returns that buffer's content; Binary/decode values reach the renderer with their own toReader()/ToBinary()", 34)
+	ru := r.Rule("C05.fmt", "bitsFormatFnFromOptions: the labels are exactly the documented bits_format values, default is an error; each renderer copies the whole reader (a byte-aligned constant-limited prefix for truncate/snippet) with one CopyBits into a writer created inside the call (no state shared between values), through the codec its label names, checks the copy error, closes base64 encoders before reading the buffer and returns that buffer's content; snippet prints the length of the whole reader in the sizebase option's base, byte_array keeps each byte 0..255; Binary values reach the renderer with their own toReader(), decode values with ToBinary() exactly when raw, scalar and not synthetic", 36)
 
 	fn := c05Anchor(ru, p, "pkg/interp.bitsFormatFnFromOptions")
 	if fn != nil {
@@ -70,14 +70,35 @@ func c05Fmt(r *fw.Run, p *fw.Program) {
 			d = e.Of(c)
 			good = d == "(pkg/interp.Binary).JQValueToGoJQEx((pkg/interp.decodeValueBase).ToBinary(P0.decodeValueBase)#0,P1)"
 			if good {
-				g := c05GuardDescs(e, c.Block())
-				if v, ok := g["P0.isRaw"]; !ok || !v {
+				// exactly: raw, scalar, not synthetic (every other raw value would ignore bits_format)
+				gb := c.Block()
+				if ex, ok := c.Call.Args[0].(*ssa.Extract); ok {
+					if tc, ok := ex.Tuple.(*ssa.Call); ok {
+						gb = tc.Block() // conditions under which the value is converted with ToBinary
+					}
+				}
+				g := c05GuardDescs(e, gb)
+				nRaw, nScalar, nSyn, nOther := 0, 0, 0, 0
+				for gd, v := range g {
+					switch {
+					case gd == "P0.isRaw" && v:
+						nRaw++
+					case strings.HasPrefix(gd, "assert<pkg/scalar.Scalarable>(P0.decodeValueBase.dv->V)#1") && v:
+						nScalar++
+					case strings.HasPrefix(gd, "(pkg/scalar.Flags).IsSynthetic(") && !v:
+						nSyn++
+					default:
+						nOther++
+						d += fmt.Sprintf(" [extra condition %s=%v]", gd, v)
+					}
+				}
+				if nRaw != 1 || nScalar != 1 || nSyn != 1 || nOther != 0 {
 					good = false
-					d += " (not under isRaw)"
+					d += fmt.Sprintf(" (conditions: isRaw %d, scalar %d, not-synthetic %d, other %d)", nRaw, nScalar, nSyn, nOther)
 				}
 			}
 		}
-		ru.Check(good, "chain:decodeValue", p.Rel(f.Pos()), "raw decode value: ToBinary().JQValueToGoJQEx(optsFn)", "a raw decode value must be rendered through its own ToBinary() with the caller's options: "+d)
+		ru.Check(good, "chain:decodeValue", p.Rel(f.Pos()), "raw decode value: ToBinary().JQValueToGoJQEx(optsFn)", "every raw, non-synthetic scalar decode value (and only those) must be rendered through its own ToBinary() with the caller's options: "+d)
 	}
 	if f := c05Anchor(ru, p, "pkg/interp.OptionsFromValue"); f != nil {
 		e := fw.NewSymEnv(f)
@@ -401,7 +422,7 @@ func c05Renderer(ru *fw.Rule, p *fw.Program, lab string, f *ssa.Function, want c
 					for _, ed := range ph.Edges {
 						if ap, ok := ed.(*ssa.Call); ok && fw.IsBuiltinCall(ap, "append") && len(ap.Call.Args) == 2 && ap.Call.Args[0] == ssa.Value(ph) {
 							if els, ok := fw.VarArgs(ap.Call.Args[1]); ok && len(els) == 1 {
-								if ld, ok := fw.StripConv(els[0]).(*ssa.UnOp); ok {
+								if ld, ok := c05WideningByte(els[0]); ok {
 									if ia, ok := ld.X.(*ssa.IndexAddr); ok && ia.X == bytesCall {
 										good = true
 									}
@@ -418,9 +439,14 @@ func c05Renderer(ru *fw.Rule, p *fw.Program, lab string, f *ssa.Function, want c
 				if els, ok := fw.VarArgs(c.Call.Args[1]); ok && len(els) == 2 && e.Of(c.Call.Args[0]) == `"<%s>%s"` {
 					d0 := e.Of(els[0])
 					good = strings.HasPrefix(d0, "(internal/mathx.Bits).StringByteBits(internal/bitiox.Len(P0)#0,") && bufStr(els[1])
+					if sc, ok := fw.StripConv(els[0]).(*ssa.Call); ok && len(sc.Call.Args) == 2 {
+						good = good && c05IsOptsField(sc.Call.Args[1], "Sizebase")
+					} else {
+						good = false
+					}
 				}
 			}
-			ru.Check(good, key, p.Rel(ret.Pos()), "<length of the whole reader> + base64 prefix", "snippet must be the bit length of the WHOLE reader followed by the buffer's content, returns "+got)
+			ru.Check(good, key, p.Rel(ret.Pos()), "<length of the whole reader in sizebase> + base64 prefix", "snippet must be the bit length of the WHOLE reader (in the sizebase option's base) followed by the buffer's content, returns "+got)
 		}
 	}
 }
@@ -508,7 +534,7 @@ func c05InLoop(b *ssa.BasicBlock) bool {
 // C05.jq
 
 func c05JQ(r *fw.Run, p *fw.Program) {
-	ru := r.Rule("C05.jq", "binary.jq: tobits/tobytes/tobitsrange/tobytesrange(/1) call _tobits with unit 1|8, keep_range false|true and pad_to_units 0|$pad, keys matching the Go option struct; interp.jq: only an explicit display clears raw_output, display_implicit is display($opts; false), the CLI displays implicitly and defaults raw_output to 'stdout is not a terminal'; tovalue/0,1 convert with options(...)", 14)
+	ru := r.Rule("C05.jq", "binary.jq: tobits/tobytes/tobitsrange/tobytesrange(/1) call _tobits with unit 1|8, keep_range false|true and pad_to_units 0|$pad, keys matching the Go option struct; interp.jq: only an explicit display clears raw_output, display_implicit is display($opts; false), the CLI displays implicitly and defaults raw_output to 'stdout is not a terminal'; tovalue/0,1 convert with options(...); between its input and _display display/2 applies only _todisplay and the value_output conversion and selects _display exactly by _can_display", 15)
 	j, err := fw.LoadJQ(p.Repo)
 	if err != nil {
 		ru.Undecided("jq", "", "cannot load bundled jq sources: "+err.Error())
@@ -602,6 +628,40 @@ func c05JQ(r *fw.Run, p *fw.Program) {
 		// nothing else in display/2 touches raw_output
 		cnt := strings.Count(fw.JQStr(d.Def.Body), "raw_output")
 		ru.Check(cnt == 1, "display/2:raw_output-once", ij, "raw_output is touched once", fmt.Sprintf("display/2 mentions raw_output %d times", cnt))
+		// what happens to the value between the input of display/2 and _display
+		qs, ss := c05JQStageQueries(d.Def.Body), c05JQStages(d.Def.Body)
+		inputVars := map[string]bool{}
+		dispIdx, condOK := -1, false
+		var extra []string
+		for i, q := range qs {
+			if i >= len(ss) {
+				break
+			}
+			if q == nil {
+				if strings.HasPrefix(ss[i], ". as ") {
+					inputVars[strings.TrimPrefix(ss[i], ". as ")] = true
+				}
+				continue
+			}
+			if ife := c05JQIf(q); ife != nil && fw.JQIsCall(ife.Then, "_display", 1) != nil {
+				dispIdx = i
+				condOK = fw.JQStr(ife.Cond) == "_can_display" && len(ife.Elif) == 0
+				break
+			}
+			st := ss[i]
+			switch {
+			case strings.HasPrefix(st, "try _todisplay catch ") && inputVars[strings.TrimPrefix(st, "try _todisplay catch ")]:
+			case c05ValueOutputRe.MatchString(st):
+			default:
+				extra = append(extra, st)
+			}
+		}
+		if dispIdx < 0 {
+			ru.Undecided("display/2:stages", ij, "display/2 is no longer a pipeline ending in `if _can_display then _display(...)`")
+		} else {
+			ru.Check(condOK && len(extra) == 0, "display/2:stages", ij, "input | _todisplay (or input) | value_output conversion | if _can_display then _display",
+				fmt.Sprintf("a displayable value (binary: raw bytes) must reach _display unchanged except for _todisplay and the value_output conversion, and exactly when _can_display: extra stages %q, condition ok=%v", extra, condOK))
+		}
 	}
 	for _, w := range []struct {
 		name  string
@@ -625,6 +685,23 @@ func c05JQ(r *fw.Run, p *fw.Program) {
 	} else {
 		c := fw.JQIsCall(d.Def.Body, "display_implicit", 1)
 		ru.Check(c != nil, "def:_cli_display/0", d.File.Rel, "CLI output is an implicit display", "the CLI must display results implicitly (raw bytes when stdout is not a terminal), does "+fw.JQStr(d.Def.Body))
+		// the options the CLI displays with leave raw_output at its default
+		if c != nil {
+			arg := fw.JQStr(c.Args[0])
+			good := !strings.Contains(arg, "raw_output")
+			detail := arg
+			if ac := fw.JQIsCall(c.Args[0], arg, 0); ac != nil {
+				if dd := j.TopDefs(arg, 0); len(dd) == 1 {
+					detail = arg + " = " + fw.JQStr(dd[0].Def.Body)
+					good = good && !strings.Contains(fw.JQStr(dd[0].Def.Body), "raw_output")
+				} else {
+					good = false
+					detail = arg + " (definition not found or ambiguous)"
+				}
+			}
+			ru.Check(good, "def:_cli_display/0:raw_output-default", d.File.Rel, "CLI display options do not override raw_output",
+				"the options the CLI displays results with must leave raw_output at its default (stdout is not a terminal), they are "+detail)
+		}
 	}
 	// default of raw_output
 	nDef := 0
@@ -671,6 +748,8 @@ func c05JQObject(q *gojq.Query) *gojq.Object {
 	}
 	return q.Term.Object
 }
+
+var c05ValueOutputRe = regexp.MustCompile(`^if \$\w+\.value_output then tovalue end$`)
 
 var c05CamelRe = regexp.MustCompile(`[[:lower:]][[:upper:]]`)
 
